@@ -249,3 +249,33 @@ func VH_heapq_Sort() {
 	}
 	vAssert(ok, "Sort: non-decreasing under cmp")
 }
+
+// VH_heapq_FarIndex: Peek and Remove for every offset in the int range.
+func VH_heapq_FarIndex() {
+	n := vCase("n")
+	cmp, dir := vPickCmp()
+	data := vMkData(n, 100)
+	vAssume(vIsHeapSlice(data, dir))
+	held := append([]vElem{}, data...)
+	q := NewWithData(cmp, data)
+	k := vInt("k") // any offset at all
+	vCover("far-index")
+	if k < 0 {
+		p1, _ := vPanics(func() { q.Peek(k) })
+		p2, _ := vPanics(func() { q.Remove(k) })
+		vAssert(p1 && p2, "Peek and Remove panic for a negative offset, however far")
+		vCheckQueue(q, held, dir, "after refused operations")
+		return
+	}
+	want, wok := q.Peek(k)
+	vAssert(wok == (k < n), "Peek(k) ok iff k < Len, for every k")
+	got, ok := q.Remove(k)
+	vAssert(ok == wok, "Remove(k) ok iff Peek(k) ok")
+	if ok {
+		vAssert(vAll(got.ID == want.ID, got.P == want.P), "Remove(k) returns what Peek(k) showed")
+		held = vRemoveByID(held, got.ID)
+	} else {
+		vAssert(got == vElem{}, "Remove out of range returns zero")
+	}
+	vCheckQueue(q, held, dir, "Remove(far)")
+}
